@@ -420,7 +420,7 @@ func verifCloseEveryListener(l net.Listener) bool {
 // location and user; same group).
 //
 //verif:contract (*~/server/proxy.HTTPProxy).Run
-//verif:props C10 C06
+//verif:props C10 C06 C13
 func verif_HTTPProxy_Run(pxy *HTTPProxy) {
 	verif.ResetEvents()
 	_, err := pxy.Run()
@@ -454,6 +454,19 @@ func verifHTTPRouteHasItsRelease(pxy *HTTPProxy) bool {
 		return false
 	}
 	return verif.CalledWithInIter(evRPUnRegister, 1, reg) && !verif.CalledInIter(evGrpUnReg)
+}
+
+// A return from inside a registration loop is a refused registration: the
+// refused route adds no release callback - otherwise closing the refused proxy
+// would un-register a route (or evict a group member) that belongs to the
+// proxy that holds it (C06 "a refusal affects nothing", C13).
+//
+//verif:loopexit (*~/server/proxy.HTTPProxy).Run 2 check=verifHTTPRefusedRouteAddsNoRelease args=pxy head=verifHTTPReleaseCount
+//verif:loopexit (*~/server/proxy.HTTPProxy).Run 3 check=verifHTTPRefusedRouteAddsNoRelease args=pxy head=verifHTTPReleaseCount
+func verifHTTPReleaseCount(pxy *HTTPProxy) int { return len(pxy.closeFuncs) }
+
+func verifHTTPRefusedRouteAddsNoRelease(pxy *HTTPProxy, n0 int) bool {
+	return len(pxy.closeFuncs) == n0
 }
 
 // HTTPProxy.Close runs every recorded release callback.
@@ -750,5 +763,36 @@ func verif_HTTPProxy_GetRealConn(pxy *HTTPProxy, remoteAddr string) {
 		verif.Ensures(verif.Same(verif.NthArg[any](evWrap, 0, 1), any(wc)), "connection_identity_is_the_work_connection")
 	} else {
 		verif.Ensures(workConn == nil || verif.Called(evEncS), "no_connection_without_a_work_connection")
+	}
+}
+
+// TCPMuxProxy.httpConnectRun (C07 "a tcpmux proxy's CONNECT credentials"; C06):
+// every route of the proxy - each non-empty custom domain (loop body check) and
+// the subdomain host - is registered with the proxy's routing user, and with
+// the proxy's CONNECT user and password as the credentials the muxer checks.
+//
+//verif:loopbody (*~/server/proxy.TCPMuxProxy).httpConnectRun 1 check=verifTCPMuxDomainListen args=pxy,domain
+func verifTCPMuxDomainListen(pxy *TCPMuxProxy, domain string) bool {
+	const ev = "TCPMuxProxy).httpConnectListen"
+	if domain == "" {
+		return !verif.CalledInIter(ev)
+	}
+	return verif.CalledWithInIter(ev, 1, domain) && verif.CalledWithInIter(ev, 2, pxy.cfg.RouteByHTTPUser) &&
+		verif.CalledWithInIter(ev, 3, pxy.cfg.HTTPUser) && verif.CalledWithInIter(ev, 4, pxy.cfg.HTTPPassword)
+}
+
+//verif:contract (*~/server/proxy.TCPMuxProxy).httpConnectRun
+//verif:props C07 C06
+//verif:kinds post,loop,pre
+func verif_TCPMuxProxy_httpConnectRun(pxy *TCPMuxProxy) {
+	sub := pxy.cfg.SubDomain
+	host := sub + "." + pxy.serverCfg.SubDomainHost
+	ru, hu, hp := pxy.cfg.RouteByHTTPUser, pxy.cfg.HTTPUser, pxy.cfg.HTTPPassword
+	verif.ResetEvents()
+	_, err := pxy.httpConnectRun()
+	const ev = "TCPMuxProxy).httpConnectListen"
+	n := verif.CallCount(ev)
+	if err == nil && sub != "" {
+		verif.Ensures(n >= 1 && verif.NthArg[string](ev, n-1, 1) == host && verif.NthArg[string](ev, n-1, 2) == ru && verif.NthArg[string](ev, n-1, 3) == hu && verif.NthArg[string](ev, n-1, 4) == hp, "subdomain_route_carries_the_routing_user_and_the_connect_credentials")
 	}
 }
